@@ -652,7 +652,7 @@ Qed.
 Lemma hook_stop_state c ti w t cn (s2 : st) :
   c_hook c = true ->
   let T0 := normal_term ti w t cn in
-  let T1 := normal_term ti w t 0 in
+  let T1 := normal_term ti w t cn in
   scr s2 = SC c T0 -> set_mode 25 true (tm s2) = TM c T0 ->
   (fst (screen_stop c s2) = ROk tt /\ tm (snd (screen_stop c s2)) = T1 /\
    s_started (scr (snd (screen_stop c s2))) = false) /\
@@ -678,7 +678,7 @@ Theorem hook_master c p rounds inputs ti w t cn :
   let rs := session c p rounds inputs (init_st T0) in
   let ct := cut (plan_at p) 0 (spec_hook_session c rounds) in
   acts (snd rs) = fst ct /\ n (snd rs) = ncb (fst ct) /\ fst rs = loop_result (snd ct) /\
-  tm (snd rs) = normal_term ti w t 0 /\ s_started (scr (snd rs)) = false.
+  tm (snd rs) = normal_term ti w t cn /\ s_started (scr (snd rs)) = false.
 Proof.
   intros Hh Hwf. cbv zeta. rewrite session_unfold.
   destruct (hook_start_state c ti w t cn Hh) as (P1 & R1 & N1 & S1 & T1 & A1 & Ac1).
@@ -762,17 +762,14 @@ Proof.
 Qed.
 
 (* ---------- both kinds of screen; the clauses of the property ---------- *)
-Definition restored_term (c : config) (ti w t cn : Z) : term :=
-  if c_hook c then normal_term ti w t 0 else normal_term ti w t cn.
-
 Theorem session_master c p rounds inputs ti w t cn :
   wf_config c ->
   let rs := session c p rounds inputs (init_st (normal_term ti w t cn)) in
   let ct := cut (plan_at p) 0 (spec_session c rounds inputs) in
   acts (snd rs) = fst ct /\ n (snd rs) = ncb (fst ct) /\ fst rs = loop_result (snd ct) /\
-  tm (snd rs) = restored_term c ti w t cn /\ s_started (scr (snd rs)) = false.
+  tm (snd rs) = normal_term ti w t cn /\ s_started (scr (snd rs)) = false.
 Proof.
-  intros Hwf. unfold spec_session, restored_term. destruct (c_hook c) eqn:Hh.
+  intros Hwf. unfold spec_session. destruct (c_hook c) eqn:Hh.
   - apply hook_master; assumption.
   - apply plain_master; assumption.
 Qed.
@@ -858,33 +855,13 @@ Proof.
 Qed.
 
 Lemma always_restored_lemma c p rounds inputs T0 :
-  wf_config c -> initial_modes T0 -> (c_hook c = true -> t_cont T0 = 0) ->
+  wf_config c -> initial_modes T0 ->
   tm (snd (session c p rounds inputs (init_st T0))) = T0 /\
   s_started (scr (snd (session c p rounds inputs (init_st T0)))) = false.
 Proof.
-  intros Hwf Hi Hc. rewrite (initial_modes_normal T0 Hi).
+  intros Hwf Hi. rewrite (initial_modes_normal T0 Hi).
   destruct (session_master c p rounds inputs (fst (t_tios T0)) (t_winch T0) (t_tstp T0) (t_cont T0) Hwf) as (_ & _ & _ & T & S).
-  split; [|exact S]. rewrite T. unfold restored_term. destruct (c_hook c); [rewrite (Hc eq_refl)|]; reflexivity.
-Qed.
-
-Lemma initial_modes_set_cont T0 :
-  initial_modes T0 -> set_cont 0 T0 = normal_term (fst (t_tios T0)) (t_winch T0) (t_tstp T0) 0.
-Proof.
-  destruct T0 as [a1 a2 a3 a4 a5 a6 a7 [ti cb] a9 a10 a11 a12]. unfold initial_modes, normal_term, set_cont. cbn.
-  intros (-> & -> & -> & -> & -> & -> & -> & -> & ->). reflexivity.
-Qed.
-
-(* whatever the initial SIGCONT handler: everything else is restored, SIGCONT is left at SIG_DFL *)
-Lemma restored_except_sigcont_lemma c p rounds inputs T0 :
-  wf_config c -> initial_modes T0 ->
-  tm (snd (session c p rounds inputs (init_st T0))) = (if c_hook c then set_cont 0 T0 else T0).
-Proof.
-  intros Hwf Hi.
-  destruct T0 as [a1 a2 a3 a4 a5 a6 a7 [ti cb] a9 a10 a11 a12]. unfold initial_modes in Hi. cbn in Hi.
-  destruct Hi as (-> & -> & -> & -> & -> & -> & -> & -> & ->).
-  change (Term false true false false false false false (ti, false) a9 a10 a11 false) with (normal_term ti a9 a10 a11).
-  destruct (session_master c p rounds inputs ti a9 a10 a11 Hwf) as (_ & _ & _ & T & S).
-  rewrite T. unfold restored_term. destruct (c_hook c); reflexivity.
+  split; [exact T|exact S].
 Qed.
 
 (* ---------- reading the specification ---------- *)
